@@ -39,7 +39,15 @@ extern "C" void harness(void)
   for (unsigned a = 0; a < NA; ++a) CHECK(k.GetValue(totalAsgn(a)) == value, 4);
   CHECK(k.GetDefaultValue() == value, 5);
   { Tab tk; tk.fill(value); CHECK((k == f) == tk.same(t), 6); CHECK((k != f) == !tk.same(t), 7); }
-  { MTBDD::SymVarToValueList pk = k.GetPaths(); CHECK(pk.size() == 1 && pk[0].first.length() == 0 && pk[0].second == value, 8); }
+  // the paths of a constant: one path, constrained nowhere, carrying the value (that the current sources report it with an
+  // assignment of length 0 rather than with don't-cares is not part of any contract: only checked with -DSTRICT_IMPL)
+  { MTBDD::SymVarToValueList pk = k.GetPaths(); CHECK(pk.size() == 1 && pk[0].second == value, 8);
+    bool free = true; for (unsigned i = 0; i < ALEN; ++i) if (i < pk[0].first.length()) free = free & (pk[0].first.GetIthVariableValue(i) == Asgn::DONT_CARE);
+    CHECK(free && pk[0].first.length() <= ALEN, 8);
+#ifdef STRICT_IMPL
+    CHECK(pk[0].first.length() == 0, 8);
+#endif
+  }
   // a copy denotes the same function and is the same diagram
   MTBDD f2(f); CHECK(f2 == f, 9);
   Tab d2 = decode(f2); for (unsigned a = 0; a < NA; ++a) CHECK(d2.v[a] == t.v[a], 10);
